@@ -1,4 +1,5 @@
 import Varpulis.Model.EventFile
+import Varpulis.Model.EventPayload
 /-! Line-classification lemma for C46: on a line of admissible length `parse_line` and one iteration
 of `parse` take the same decision (skip / event / error / panic), whatever the batch time is. -/
 namespace Varpulis.EventFile
@@ -44,4 +45,88 @@ theorem stream_eq_preload (lines : List RawLine) (h : ∀ l ∈ lines, l.rawLen 
           | none => simp [hp]; rfl
           | some e => simp only [hp]; rw [ih' batch, Outcome.map_cons]
 
+/-! ### the text handed to the payload parser -/
+
+/-- what a reader hands to the payload parser for one (trimmed) line, independent of the parser:
+`ok none` = the line is skipped, `ok (some text)` = exactly this text is parsed, `reject` = the
+line is rejected before any payload is parsed. Mirrors the common prefix of one iteration of
+`parse` and of `parse_stream_line`. -/
+def linePayload (line0 : String) : Outcome (Option (List Char)) :=
+  let line := trimL line0.toList
+  if line.isEmpty || starts line "#" || starts line "//" then .ok none
+  else if starts line "BATCH" then
+    match batchTime line with
+    | some _ => .ok none
+    | none => .reject
+  else
+    match (if starts line "@" then parseTimingPrefix line else .ok (0, line)) with
+    | .ok (_, evl) => .ok (some evl)
+    | .reject => .reject
+    | .panic => .panic
+
+/-- the batch time after a line (only `BATCH n` changes it) -/
+def nextBatch (batch : Nat) (line0 : String) : Nat :=
+  let line := trimL line0.toList
+  if line.isEmpty || starts line "#" || starts line "//" then batch
+  else if starts line "BATCH" then
+    match batchTime line with
+    | some (some n) => n
+    | _ => batch
+  else batch
+
+/-- the time offset the preloading reader attaches to the event of a line -/
+def lineOffset (batch : Nat) (line0 : String) : Nat :=
+  let line := trimL line0.toList
+  if starts line "@" then
+    match parseTimingPrefix line with
+    | .ok (off, _) => off
+    | _ => batch
+  else batch
+
+/-- `parse_stream_line` consults the payload parser only on `linePayload` -/
+theorem parseLine_factors (t : String) :
+    parseLine parseEvent t = match linePayload t with
+      | .ok none => .ok none
+      | .ok (some evl) => (match parseEvent (String.ofList evl) with | some e => .ok (some e) | none => .reject)
+      | .reject => .reject
+      | .panic => .panic := by
+  simp only [parseLine, linePayload]
+  split
+  · rfl
+  · split
+    · cases batchTime (trimL t.toList) <;> rfl
+    · by_cases hat : starts (trimL t.toList) "@" = true
+      · simp only [hat, if_true]
+        cases parseTimingPrefix (trimL t.toList) with
+        | ok p => rfl
+        | reject => rfl
+        | panic => rfl
+      · simp only [hat, if_false, Bool.false_eq_true]
+        cases parseEvent (String.ofList (trimL t.toList)) <;> rfl
+
+/-- one iteration of `parse` consults the payload parser only on the same `linePayload` -/
+theorem preloadFrom_factors (batch : Nat) (l : RawLine) (ls : List RawLine) :
+    preloadFrom parseEvent batch (l :: ls) = match linePayload l.text with
+      | .ok none => preloadFrom parseEvent (nextBatch batch l.text) ls
+      | .ok (some evl) => (match parseEvent (String.ofList evl) with
+          | some e => (preloadFrom parseEvent batch ls).cons (e, lineOffset batch l.text)
+          | none => .reject)
+      | .reject => .reject
+      | .panic => .panic := by
+  simp only [preloadFrom, linePayload, nextBatch, lineOffset]
+  split
+  · rfl
+  · split
+    · rename_i hb
+      cases hbt : batchTime (trimL l.text.toList) with
+      | none => rfl
+      | some o => cases o <;> rfl
+    · by_cases hat : starts (trimL l.text.toList) "@" = true
+      · simp only [hat, if_true]
+        cases parseTimingPrefix (trimL l.text.toList) with
+        | ok p => rfl
+        | reject => rfl
+        | panic => rfl
+      · simp only [hat, if_false, Bool.false_eq_true]
+        cases parseEvent (String.ofList (trimL l.text.toList)) <;> rfl
 end Varpulis.EventFile
